@@ -6,8 +6,20 @@ import Autog.Lemmas.Phase4Simple
 namespace Autog
 open Phase4Simple
 
-def setXs (g : G) (ns : List Nat) (xs : List Rat) : G :=
-  (ns.zip xs).foldl (fun g (n, x) => g.modNode n fun nd => { nd with x := x }) g
+/-- write one value per node with the given field update -/
+def setCoord (upd : Node → Rat → Node) (g : G) (ns : List Nat) (xs : List Rat) : G :=
+  (ns.zip xs).foldl (fun g (n, x) => g.modNode n fun nd => upd nd x) g
+
+def updX (nd : Node) (x : Rat) : Node := { nd with x := x }
+def updY (nd : Node) (y : Rat) : Node := { nd with y := y }
+
+abbrev setXs (g : G) (ns : List Nat) (xs : List Rat) : G := setCoord updX g ns xs
+
+/-- one value list per layer, written layer by layer (the positioners never change widths or heights, so every
+    list is computed from the incoming state) -/
+def placeAllWith (upd : Node → Rat → Node) (g : G) (pl : List (List Nat × List Rat)) : G :=
+  pl.foldl (fun g p => setCoord upd g p.1 p.2) g
+abbrev placeAll (g : G) (pl : List (List Nat × List Rat)) : G := placeAllWith updX g pl
 
 def widthsOf (g : G) (l : Layer) : List Rat := l.nodes.map fun n => (g.node n).w
 def heightsOf (g : G) (l : Layer) : List Rat := l.nodes.map fun n => (g.node n).h
@@ -15,26 +27,36 @@ def heightsOf (g : G) (l : Layer) : List Rat := l.nodes.map fun n => (g.node n).
 /-- `l.H = max(l.H, n.H)` over the nodes of the layer -/
 def growH (g : G) (l : Layer) : Layer := { l with h := (heightsOf g l).foldl maxRat l.h }
 
+/-- the Y of every layer -/
+def layerYs (ls : Rat) (g : G) : List Rat := assignY ls 0 (g.layers.toList.map (·.h))
+def assignYPlan (ls : Rat) (g : G) : List (List Nat × List Rat) :=
+  (g.layers.toList.zip (layerYs ls g)).map fun (l, y) => (l.nodes, List.replicate l.nodes.length y)
+
 /-- `assignYCoords` -/
-def assignYCoords (ls : Rat) (g : G) : G :=
-  let ys := assignY ls 0 (g.layers.toList.map (·.h))
-  (g.layers.toList.zip ys).foldl (fun g (l, y) =>
-    l.nodes.foldl (fun g n => g.modNode n fun nd => { nd with y := y }) g) g
+def assignYCoords (ls : Rat) (g : G) : G := placeAllWith updY g (assignYPlan ls g)
+
+
+/-- `maxW`: the widest layer, at least 0 -/
+def maxLayerW (ns : Rat) (g : G) : Rat := (g.layers.toList.map fun l => layerW ns (widthsOf g l)).foldl maxRat 0
+
+/-- the layer records VAlign leaves behind: `layer.W`, `layer.H` -/
+def valignLayers (ns : Rat) (g : G) : Array Layer :=
+  g.layers.map fun l => { l with w := layerW ns (widthsOf g l), h := (heightsOf g l).foldl maxRat 0 }
+def valignPlan (ns : Rat) (g : G) : List (List Nat × List Rat) :=
+  g.layers.toList.map fun l => (l.nodes, valign ns (maxLayerW ns g) (widthsOf g l))
 
 /-- `execVerticalAlign` -/
 def execVerticalAlign (ns : Rat) (g : G) : G :=
-  let layers := g.layers.map fun l =>
-    { l with w := layerW ns (widthsOf g l), h := (heightsOf g l).foldl maxRat 0 }
-  let maxW := (layers.toList.map (·.w)).foldl maxRat 0
-  let g := { g with layers := layers }
-  layers.toList.foldl (fun g l => setXs g l.nodes (valign ns maxW (widthsOf g l))) g
+  placeAll { g with layers := valignLayers ns g } (valignPlan ns g)
 
 /-- `execPackRight`: place from the right end, then shift by the leftmost x reached -/
-def execPackRight (ns : Rat) (g : G) : G :=
-  let placed := g.layers.toList.map fun l => (l, (packBack ns 0 (widthsOf g l).reverse).reverse)
-  let leftBound := (placed.flatMap (·.2)).foldl minRat 0
-  let g := placed.foldl (fun g (l, xs) => setXs g l.nodes (xs.map (· - leftBound))) g
-  { g with layers := g.layers.map (growH g) }
+def packRightRaw (ns : Rat) (g : G) (l : Layer) : List Rat := (packBack ns 0 (widthsOf g l).reverse).reverse
+def packLeftBound (ns : Rat) (g : G) : Rat := (g.layers.toList.flatMap (packRightRaw ns g)).foldl minRat 0
+def packRightPlan (ns : Rat) (g : G) : List (List Nat × List Rat) :=
+  g.layers.toList.map fun l => (l.nodes, (packRightRaw ns g l).map (· - packLeftBound ns g))
+def growAllH (g : G) : G := { g with layers := g.layers.map (growH g) }
+
+def execPackRight (ns : Rat) (g : G) : G := growAllH (placeAll g (packRightPlan ns g))
 
 /-- `phase4.Alg.Process` for the positioners with an exact model: 1 = VAlign, 2 = PackRight -/
 def phase4Simple (alg : Nat) (ns ls : Rat) (g : G) : M G := do
